@@ -175,6 +175,9 @@ def run(ctx: Ctx) -> None:
     rjobs = []
     for k in range(300 if quick else 6000):
         case = gen_map.random_map_case(rng, rng.randint(1, 4))
+        for fd in case["desc"]["funcs"]:          # some multi-output functions return a mapping picked by a custom output_picker
+            if len(fd["outputs"]) > 1 and rng.random() < 0.4:
+                fd["picker"] = True
         rjobs.append({"tdesc": desc_to_tla(case["desc"]), "pdesc": case["desc"], "inputs": case["inputs"],
                       "kinds": case["kinds"], "storage": storages[k % 3] if k % 7 else "shared_memory_dict"})
     rtraces = run_jobs(rjobs)
